@@ -11,14 +11,22 @@ Strict ==
   \/ /\ e.ev = "CInitial" /\ ClientInitial(e.ver, e.dcid)
      \* what a standards-conformant server checks: initial_source_connection_id = the packet's source connection ID
      /\ iscidBad' = (iscidBad \/ (e.iscid # "" /\ e.iscid # e.scid))
-  \/ e.ev = "VN" /\ DeliverVN(SeqToSet(e.versions)) /\ UNCHANGED iscidBad
-  \/ e.ev = "Retry" /\ DeliverRetry(e.scid, e.tagok) /\ UNCHANGED iscidBad
-  \/ e.ev = "SPacket" /\ DeliverServerPacket(e.scid) /\ UNCHANGED iscidBad
+  \/ phase = "dialing" /\ e.ev = "VN" /\ ~e.inj /\ DeliverVN(SeqToSet(e.versions)) /\ UNCHANGED iscidBad
+  \/ phase = "dialing" /\ e.ev = "VN" /\ e.inj /\ InjectedVN(SeqToSet(e.versions)) /\ UNCHANGED iscidBad
+  \/ phase = "dialing" /\ e.ev = "InjClose" /\ InjectedInitialClose /\ UNCHANGED iscidBad
+  \/ phase = "dialing" /\ e.ev = "CHandshake" /\ ClientHandshakePkt /\ UNCHANGED iscidBad
+  \/ e.ev = "EarlyWrite" /\ EarlyWrite(e.sid) /\ UNCHANGED iscidBad
+  \/ e.ev = "EarlyOutcome" /\ EarlyOutcome(e.used) /\ UNCHANGED iscidBad
+  \/ e.ev = "EarlyDelivered" /\ EarlyDelivered(e.sid) /\ UNCHANGED iscidBad
+  \/ phase = "dialing" /\ e.ev = "Retry" /\ DeliverRetry(e.scid, e.tagok) /\ UNCHANGED iscidBad
+  \/ phase = "dialing" /\ e.ev = "SPacket" /\ DeliverServerPacket(e.scid, e.kind) /\ UNCHANGED iscidBad
   \/ e.ev = "DialEnd" /\ DialEnd(e.res, e.ver) /\ UNCHANGED iscidBad
   \/ e.ev = "AcceptEnd" /\ AcceptEnd(e.res, e.ver) /\ UNCHANGED iscidBad
   \/ e.ev = "Echo" /\ Echo(e.ok) /\ UNCHANGED iscidBad
   \/ e.ev = "DialDone" /\ DialDone /\ UNCHANGED iscidBad
   \/ e.ev \in {"Note", "Inject"} /\ UNCHANGED <<hvars, iscidBad>>
+  \* datagrams still in flight after the dial was reported finished
+  \/ phase = "ended" /\ e.ev \in {"CInitial", "VN", "Retry", "SPacket", "CHandshake", "InjClose", "AcceptEnd"} /\ UNCHANGED <<hvars, iscidBad>>
 \* ---- collect mode: every failing execution is recorded in fails and validation continues with the next one
 VARIABLES fails, caseFailed
 cvars == <<tvars, fails, caseFailed>>
@@ -27,7 +35,8 @@ NextReset(j) == CHOOSE k \in (j + 1)..(TraceLen + 1) :
                   /\ \A m \in (j + 1)..(k - 1) : Trace[m].ev # "Reset"
 FirstBroken == IF ~AgreeOrFail' THEN "AgreeOrFail"
                ELSE IF ~DialCompletes' THEN "DialCompletes"
-               ELSE IF iscidBad' THEN "ISCIDMatchesHeader" ELSE "none"
+               ELSE IF iscidBad' THEN "ISCIDMatchesHeader"
+               ELSE IF ~EarlyDataOnceOrNever' THEN "EarlyDataOnceOrNever" ELSE "none"
 Step == /\ l <= TraceLen
         /\ Strict /\ l' = l + 1 /\ UNCHANGED diverged
         /\ LET b == FirstBroken
